@@ -323,3 +323,115 @@ Example conn_serving_holds_vrp :
   let k := conn_run true (conn_init []) (firstn 2 (race_ops true)) in
   k_task k = TServe /\ iter F4 (k_tab k) = POk [({| n_fam := F4; n_addr := [10; 0; 0; 0]; n_mask := 8 |}, mk_roa BASE 24 65001)].
 Proof. vm_compute. repeat split. Qed.
+
+(* ---- what ListRpki shows: the client is reported up exactly while a session is live *)
+Lemma on_msg_up : forall fx c st t m, c_up (fst (fst (on_msg fx c st t m))) = c_up st.
+Proof.
+  intros fx c st t m. unfold on_msg.
+  destruct m; cbn [fst];
+    repeat match goal with |- context [if ?b then _ else _] => destruct b end; reflexivity.
+Qed.
+
+Lemma run_pdus_up : forall fx ms c st t, c_up (fst (run_pdus fx c ms st t)) = c_up st.
+Proof.
+  induction ms as [|m ms IH]; intros c st t; [reflexivity|].
+  cbn [run_pdus]. pose proof (on_msg_up fx c st t m) as H.
+  destruct (on_msg fx c st t m) as [[st1 t1] o]. cbn [fst] in H. rewrite IH. exact H.
+Qed.
+
+Lemma client_event_up : forall fx c st t e st1 t1 sent,
+  c_done st = false -> client_event fx c st t e = (st1, t1, sent) ->
+  (c_done st1 = true /\ c_up st1 = false) \/ (c_done st1 = false /\ c_up st1 = c_up st).
+Proof.
+  intros fx c st t e st1 t1 sent D CE. unfold client_event in CE. rewrite D in CE.
+  destruct e as [c0 bytes|c0|c0|c0].
+  - destruct (c_open st).
+    2:{ inversion CE; subst. right. split; [exact D|reflexivity]. }
+    destruct (Stream.drain (codec fx) (S (length (c_buf st ++ bytes))) (c_buf st ++ bytes)) as [[evs ds]|].
+    + destruct (apply_evs_runs_pdus fx c evs st t []) as [o E]. rewrite E in CE.
+      pose proof (run_pdus_done fx (map of_rtr (Stream.msgs_of evs)) c st t) as RD.
+      pose proof (run_pdus_up fx (map of_rtr (Stream.msgs_of evs)) c st t) as RU.
+      destruct (run_pdus fx c (map of_rtr (Stream.msgs_of evs)) st t) as [st2 t2]. cbn [fst snd] in CE, RD, RU.
+      destruct (match Stream.err_of evs with Some _ => true | None => false end).
+      * unfold finish_session in CE. inversion CE; subst. left. split; reflexivity.
+      * unfold fire_permit in CE.
+        destruct (c_permit (with_buf st2 _) && c_eod (with_buf st2 _)); inversion CE; subst;
+          right; cbn [with_permit with_buf c_done c_up]; (split; [congruence|exact RU]).
+    + unfold finish_session in CE. inversion CE; subst. left. split; reflexivity.
+  - unfold fire_permit in CE. cbn [with_permit c_permit c_eod] in CE.
+    destruct (true && c_eod st); inversion CE; subst; right; cbn [with_permit c_done c_up]; (split; [exact D|reflexivity]).
+  - unfold finish_session in CE. inversion CE; subst. left. split; reflexivity.
+  - unfold finish_session in CE. inversion CE; subst. left. split; reflexivity.
+Qed.
+
+Definition up_ok (k : conn) : Prop :=
+  (k_task k = TServe -> c_up (k_cur k) = true /\ c_done (k_cur k) = false)
+  /\ (k_task k <> TServe -> c_up (k_cur k) = false).
+
+Lemma up_ok_cancel : forall b k, up_ok k -> up_ok (cancel_task true b k).
+Proof.
+  intros b k [U1 U2]. unfold cancel_task, up_ok.
+  destruct (k_task k) eqn:T; cbn [orb]; unfold finish_session, set_conn; cbn [k_task k_cur c_up c_done].
+  - split; [discriminate|intros _; apply U2; discriminate].
+  - split; [discriminate|reflexivity].
+  - split; [discriminate|intros _; apply U2; discriminate].
+Qed.
+
+Lemma up_ok_connect : forall k, up_ok (fst (connect k)).
+Proof. intro k. unfold connect, up_ok, set_conn, new_session. cbn. split; [intros _; split; reflexivity|congruence]. Qed.
+
+Lemma up_ok_step : forall k o, up_ok k -> up_ok (fst (fst (conn_step true k o))).
+Proof.
+  intros k o U. pose proof U as [U1 U2].
+  destruct o as [|b| |b|b| |bytes| |]; unfold conn_step.
+  - destruct (k_reg k); [exact U|]. rewrite step_connect. cbn [fst]. apply up_ok_connect.
+  - destruct (k_reg k); [|exact U]. cbn [fst]. exact (up_ok_cancel b k U).
+  - destruct (k_reg k); cbn [negb]; [|exact U]. destruct (k_disabled k); cbn [negb]; [|exact U].
+    rewrite step_connect. cbn [fst]. apply up_ok_connect.
+  - destruct (k_reg k); cbn [negb]; [|exact U]. destruct (k_disabled k); [exact U|].
+    cbn [fst]. exact (up_ok_cancel b k U).
+  - destruct (k_reg k); cbn [negb]; [|exact U]. rewrite step_connect.
+    destruct (k_disabled (cancel_task true b k)); cbn [fst]; [exact (up_ok_cancel b k U)|apply up_ok_connect].
+  - destruct (k_reg k); cbn [negb]; [|exact U]. destruct (k_disabled k); [exact U|].
+    destruct (k_task k) eqn:T.
+    + cbn [fst]. unfold up_ok, with_cur, set_conn. cbn [k_task k_cur with_permit c_up c_done].
+      split; [discriminate|intros _; apply U2; discriminate].
+    + destruct (client_event fixed (k_tok k) (k_cur k) (k_tab k) (ESoftReset (k_tok k))) as [[st1 t1] sent] eqn:CE.
+      cbn [fst]. destruct (U1 eq_refl) as [Up Dn].
+      assert (E : c_done st1 = false /\ c_up st1 = c_up (k_cur k)).
+      { unfold client_event in CE. rewrite Dn in CE. unfold fire_permit in CE. cbn [with_permit c_permit c_eod] in CE.
+        destruct (true && c_eod (k_cur k)); inversion CE; subst; cbn [with_permit c_done c_up]; split; (exact Dn || reflexivity). }
+      destruct E as [D1 Up1]. unfold up_ok, with_cur, set_conn. cbn [k_task k_cur].
+      split; [intros _; split; [rewrite Up1; exact Up|exact D1]|congruence].
+    + cbn [fst]. unfold up_ok, with_cur, set_conn. cbn [k_task k_cur with_permit c_up c_done].
+      split; [discriminate|intros _; apply U2; discriminate].
+  - destruct (k_task k) eqn:T; try exact U.
+    destruct (client_event fixed (k_tok k) (k_cur k) (k_tab k) (EFeed (k_tok k) bytes)) as [[st1 t1] sent] eqn:CE.
+    cbn [fst]. destruct (U1 eq_refl) as [Up Dn].
+    destruct (client_event_up fixed _ _ _ _ _ _ _ Dn CE) as [[D1 Up1]|[D1 Up1]]; rewrite D1;
+      unfold up_ok, with_cur, set_conn; cbn [k_task k_cur].
+    + split; [discriminate|intros _; exact Up1].
+    + split; [intros _; split; [rewrite Up1; exact Up|exact D1]|congruence].
+  - destruct (k_task k) eqn:T; try exact U.
+    destruct (client_event fixed (k_tok k) (k_cur k) (k_tab k) (EClose (k_tok k))) as [[st1 t1] sent] eqn:CE.
+    cbn [fst]. destruct (U1 eq_refl) as [Up Dn].
+    assert (Up1 : c_up st1 = false).
+    { unfold client_event in CE. rewrite Dn in CE. unfold finish_session in CE. inversion CE; subst. reflexivity. }
+    unfold up_ok, with_cur, set_conn. cbn [k_task k_cur]. split; [discriminate|intros _; exact Up1].
+  - destruct (k_task k) eqn:T; try exact U. rewrite step_connect. cbn [fst]. apply up_ok_connect.
+Qed.
+
+(* C13: the `up` flag the API lists for the cache is true exactly while a session is live *)
+Theorem C13_conn_up_iff_serving : forall (pre : list (net * N * N)) (ops : list cop),
+  let k := conn_run true (conn_init pre) ops in
+  c_up (k_cur k) = true <-> k_task k = TServe.
+Proof.
+  intros pre ops k.
+  assert (U : up_ok k).
+  { unfold k. generalize (conn_init pre) (ltac:(unfold up_ok, conn_init; cbn; split; [discriminate|reflexivity]) : up_ok (conn_init pre)).
+    induction ops as [|o ops IH]; intros k0 U0; [exact U0|].
+    unfold conn_run. cbn [fold_left]. apply IH. apply up_ok_step. exact U0. }
+  destruct U as [U1 U2]. split.
+  - intro H. destruct (k_task k) eqn:T; [|reflexivity|]; rewrite U2 in H by discriminate; discriminate.
+  - intro T. apply U1. exact T.
+Qed.
